@@ -110,6 +110,21 @@ def program_ops(wiring: str) -> List[str]:
     return ops
 
 
+GLYPH_ROWS = [-33, -32, -11, -1, 0, 1, 21, 31, 32, 33, 64, 228, 255, 256, 1000, True, 4]
+
+
+def gen_glyphs(tier: str) -> Iterator[dict]:
+    """Glyph upload: every slot x bitmaps whose rows sweep values inside and outside 0..31 (the host keeps the
+    low five bits), for both wirings; the uploaded rows must equal the host's."""
+    for wiring, cols, rows in (("parallel", 16, 2), ("i2c", 20, 4)):
+        for slot in range(8):
+            for off in range(len(GLYPH_ROWS)):
+                bitmap = [GLYPH_ROWS[(off + i) % len(GLYPH_ROWS)] for i in range(8)]
+                lines = [f"lcd.glyph({slot}, {bitmap})", 'mon.write("#0")', f"lcd.glyph({(slot + 3) % 8}, {bitmap[::-1]})", 'mon.write("#1")']
+                d = decl(wiring, cols, rows, backlight=True)
+                yield {"id": f"G:{wiring}:{slot}:{off}", "space": "O", "src": common.script([d] + lines, prologue=PRO), "runs": [{"passes": 0}], "geom": [cols, rows]}
+
+
 def gen_programs(tier: str) -> Iterator[dict]:
     for wiring, cols, rows in (("parallel", 16, 2), ("i2c", 20, 4)):
         ops = program_ops(wiring)
@@ -263,6 +278,8 @@ def generate(tier: str, only=None) -> Iterator[dict]:
     if not only or "O" in only:
         yield from gen_programs(tier)
         yield from gen_two_lcds(tier)
+    if not only or "Y" in only:
+        yield from gen_glyphs(tier)
     if not only or "G" in only:
         yield from gen_progress(tier)
     if not only or "H" in only:
